@@ -17,7 +17,7 @@ MANIFEST_TEXT = ("Lean 4 theorems (all index lists incl. repeated indices, all p
                  "the counters always equal the number of open requests, no message is matched with a receive of the other "
                  "phase, and every maximal execution ends with every rank returned and every link delivered. The model is run "
                  "against the real class under mpirun -np 1..4 (thorough: ..8) on random symmetric interface maps with a "
-                 "recording data handle, five item types (MPITraits of long, POD, std::pair, nested pair, FieldVector), all six "
+                 "recording data handle, six item types (MPITraits of long, POD, std::pair with interior padding, std::pair with tail padding, nested pair, FieldVector), all six "
                  "ways to construct the object, several calls per object mixing fixed- and variable-size handles, "
                  "PMPI-permuted MPI_Testsome completion orders, a per-case alarm that turns a hang into a reported crash, an "
                  "independent delivery oracle and a send/receive balance oracle (PMPI counts of the started point-to-point "
@@ -39,13 +39,13 @@ HARNESS = dict(
     sources=["mpi_c06.cc", "pmpi_sched.cc"],
     mpi=True,
     repo_sources=["dune/common/exceptions.cc", "dune/common/stdstreams.cc"],
-    flags=["-O0"],  # five item types x the whole communicator template: 12 s instead of 52 s; the sanitizers stay on
+    flags=["-O0"],  # six item types x the whole communicator template: ~14 s instead of ~60 s; the sanitizers stay on
 )
 CRASH_IS_VIOLATION = True  # the property promises that forward()/backward() return on every process
 RULE = ("cases: rank 0 draws a symmetric interface map over P processes (self interfaces, empty interfaces, one-directional "
         "links, repeated indices), a buffer size B in {1,2,3,4,5,7,8,16,32768}, per-rank fixed sizes f in {1,2,(B+1)/2,B-1,B,random} "
         "(equal or different between ranks) and/or per-index sizes from {0,1,2,B-1,B,random<=B} (streams: random, all zero, "
-        "some ranks all zero, single non-zero, all B, zero-heavy), one of five item types, one of six constructors, and a "
+        "some ranks all zero, single non-zero, all B, zero-heavy), one of six item types (long, POD, pair<char,double>, pair<double,char>, pair<int,pair<short,double>>, FieldVector<double,3>), one of six constructors, and a "
         "sequence of 1-4 forward/backward calls on the one object, with handles of the case's mode or of the other mode; "
         "distinct = distinct op lines; non-trivial = at least one rank has a non-empty interface list")
 ASSUMPTIONS = [
